@@ -54,6 +54,9 @@ func boundsRun(c *Ctx, entries []*ssa.Function, hooks *bounds.Hooks) int {
 		if only := os.Getenv("RTPCHECK_ONLY"); only != "" && !strings.Contains(core.FuncName(fn), only) {
 			continue
 		}
+		if skip := os.Getenv("RTPCHECK_SKIP"); skip != "" && strings.Contains(core.FuncName(fn), skip) {
+			continue // self-test speed-up only (selftest/guardsweep.sh); never set by the registered commands
+		}
 		uniq = append(uniq, fn)
 	}
 	type result struct {
